@@ -75,5 +75,13 @@ CLAIMS = {
         "note": TRUST + "asyncio.Queue FIFO; bytearray.find / slicing semantics; the function is sequential, so no schedule needs exploring",
         "technique": "inductive-invariant premises checked on value-flow terms + affine lengths (static analysis)",
     },
+    "C12": {
+        "text": "Layouts of Frame.tobytes, Command.tobytes and all 8 command classes are derived symbolically: AA, length byte = |frame|−1 "
+                "(affine), 0xAC, documented frame type per class (constructor resolution), body = data ‖ id ‖ crc8(data ‖ id), checksum "
+                "over [1:-1]; every tobytes override ends in the base framing; counter +1 & 0xFF; CRC table = generated Dallas/Maxim "
+                "table = vendor Lua table; property command count/record layouts; length byte fits for the largest command.",
+        "note": TRUST + "vendor Lua table read lexically",
+        "technique": "byte-sequence layout domain + constructor resolution + constant folding (static analysis)",
+    },
 }
 NOT_APPLICABLE = {}
